@@ -279,6 +279,9 @@ class StructureMetaType(MetaType):
 
         result = {}
         sizes = {}
+        # What has been read so far is the context of what follows (array sizes), that includes the fields of
+        # anonymous structure members, which are fields of this structure too
+        context = result if cls.fields.keys() == cls.lookup.keys() else {}
         for field in cls.__fields__:
             offset = stream.tell()
 
@@ -304,14 +307,20 @@ class StructureMetaType(MetaType):
                     value = bit_buffer.read(field.type, field.bits)
 
                 result[field._name] = value
+                if context is not result:
+                    context[field._name] = value
                 continue
 
             bit_buffer.reset()
 
-            value = field.type._read(stream, result)
+            value = field.type._read(stream, context)
 
             sizes[field._name] = stream.tell() - offset
             result[field._name] = value
+            if context is not result:
+                context[field._name] = value
+                if field.name is None and isinstance(field.type, StructureMetaType):
+                    context.update({name: getattr(value, name) for name in field.type.fields})
 
         if cls.__align__:
             # Align the stream
